@@ -123,7 +123,7 @@ func runC06_9(c *core.Ctx) {
 		})
 		if sig, ok := f.Obj.Type().(*types.Signature); ok {
 			for i := 0; i < sig.Results().Len(); i++ {
-				if vv := sig.Results().At(i); vv.Name() != "" && types.Identical(vv.Type(), errType) {
+				if vv := sig.Results().At(i); nameOf(vv) != "" && types.Identical(vv.Type(), errType) {
 					if _, seen := idx[vv]; !seen {
 						idx[vv] = len(errVars)
 						errVars = append(errVars, vv)
@@ -298,7 +298,7 @@ func runC06_10(c *core.Ctx) {
 	var lit *ast.FuncLit
 	for _, call := range callsIn(f.Decl.Body, false) {
 		cf := flow.CalleeFunc(f.Info, call)
-		if cf != nil && cf.Name() == "iterate" && len(call.Args) == 1 {
+		if cf != nil && nameOf(cf) == "iterate" && len(call.Args) == 1 {
 			if fl, ok := ast.Unparen(call.Args[0]).(*ast.FuncLit); ok {
 				lit = fl
 			}
